@@ -41,6 +41,9 @@ pub struct Exp {
     pub all_cells_uniform: bool,
     pub cx_also: Vec<u32>,
     pub cy_also: Vec<u32>,
+    /// the cursor row must be the home row of the POST state's own region / origin mode (where the
+    /// margins themselves are lenient, the home row must still agree with the margins that came out)
+    pub home_consistent: bool,
     /// cursor only required to be inside the screen (resize)
     pub cursor_inside: bool,
     pub margins_also: Vec<Option<(u32, u32)>>,
@@ -70,6 +73,7 @@ impl Exp {
             all_cells_uniform: false,
             cx_also: Vec::new(),
             cy_also: Vec::new(),
+            home_consistent: false,
             cursor_inside: false,
             margins_also: Vec::new(),
             tab_below,
@@ -836,6 +840,7 @@ fn deccolm_erase_home(e: &mut Exp, pre: &Snap) {
     e.all_cells_uniform = true;
     r_home(&mut e.s);
     home_alts(e);
+    e.home_consistent = true;
 }
 
 /// when the margins themselves are lenient, home may be row 0 or the top margin
@@ -893,7 +898,15 @@ pub fn compare(e: &Exp, post: &Snap) -> Vec<Mismatch> {
         }
     } else {
         let xok = post.cx == x.cx || e.cx_also.contains(&post.cx);
-        let yok = post.cy == x.cy || e.cy_also.contains(&post.cy);
+        let mut yok = post.cy == x.cy || e.cy_also.contains(&post.cy);
+        if e.home_consistent {
+            // "homes the cursor": home of the state that came out (row 0, or the top margin when
+            // origin mode is on and a region is in force)
+            let want = if post.has_mode(DECOM) { post.margins.map(|m| m.0).unwrap_or(0) } else { 0 };
+            if post.cy != want {
+                yok = false;
+            }
+        }
         if !xok || !yok {
             m.push(mm(
                 "cursor",
